@@ -3,7 +3,8 @@
 From V Require Import Model.C18_Table Model.C18_Conc Model.C18_Wait Model.C18_Glue Gen.Locksets
   Proofs.C18_Wait Proofs.C18_WaitGlue.
 
-Lemma wait_graph_okb_holds : wait_graph_okb nesting waits covers = true.
+(* (stated on the unfolded form: every use below then matches syntactically, no conversion has to evaluate the test) *)
+Lemma wait_graph_okb_holds : lock_order_okb (wait_edges nesting waits covers) = true.
 Proof. vm_compute. reflexivity. Qed.
 
 Lemma wait_graph_acyclic_l : exists rank : string -> nat, forall a b where_,
@@ -13,9 +14,9 @@ Proof.
   apply okb_edge; [exact wait_graph_okb_holds|]. now exists w.
 Qed.
 
-Lemma table_no_wait_deadlock_l (grp : nat -> list group) (progs : nat -> list wev) n s0 s :
-  winit_ok s0 -> wprog_inv progs s0 ->
-  (forall i, wconforms (wait_edges nesting waits covers) (grp i) (progs i)) -> (forall i, wbalanced (progs i)) ->
+Lemma table_no_wait_deadlock_l (grp : nat -> list group) (progs : nat -> list gev) n s0 s :
+  ginit_ok s0 -> gprog_inv progs s0 ->
+  (forall i, gconforms (wait_edges nesting waits covers) (grp i) (progs i)) -> (forall i, gbalanced (progs i)) ->
   (forall i, n <= i -> progs i = []) ->
-  wreach grp s0 s -> ~ wdeadlocked grp n s.
+  greach grp s0 s -> ~ gdeadlocked grp n s.
 Proof. exact (graph_no_wait_deadlock _ grp progs n s0 s wait_graph_okb_holds). Qed.
